@@ -12,6 +12,7 @@ FileName fn_dropExt(const FileName &f) { return f.dropExt(); }
 FileName fn_setExt(const FileName &f, const std::string &e) { return f.setExt(e); }
 FileName fn_addExt(const FileName &f, const std::string &e) { return f.addExt(e); }
 FileName fn_plus(const FileName &f, const FileName &g) { return f + g; }
+FileName fn_plus_str(const FileName &f, const std::string &s) { return f + s; }
 bool fn_eq(const FileName &a, const FileName &b) { return a == b; }
 bool fn_ne(const FileName &a, const FileName &b) { return a != b; }
 }
